@@ -199,6 +199,9 @@ where
                         server_pending = true;
                     }
                 }
+            } else if server.is_none() {
+                // No replier bound: nothing to wait for on that side
+                server_pending = true;
             }
 
             // If we've got a reply buffered already, we need to write it to the sink
@@ -237,6 +240,9 @@ where
                         let si = &mut server.as_mut().as_pin_mut().unwrap().0;
                         ready!(si.poll_flush_unpin(cx)).unwrap();
                     }
+
+                    // No requestor streams: nothing to wait for on that side
+                    stream_pending = true;
                 }
                 // No messages are available at this time
                 Poll::Pending => {
